@@ -174,9 +174,16 @@ TRUSTED_BASE = [
 
 
 def write_evidence(prop_id, tier_, level, coverage, wall_s, violations=0, assumptions=None):
+    if os.environ.get('MLPE_NO_EVIDENCE'):
+        return                      # an additional pass of the thorough tier under another hash seed (see ./check)
     EVID.mkdir(exist_ok=True)
     cov = dict(coverage)
     cov.setdefault('trusted_base', TRUSTED_BASE)
+    # networkx iterates sets of node ids, so the launch orders it proposes depend on Python's string hashing: the hash seed
+    # is fixed per run (derived from VERIF_SEED by ./check), recorded here and in every replay file
+    cov['python_hash_seed'] = os.environ.get('PYTHONHASHSEED')
+    if os.environ.get('MLPE_EXTRA_PASSES'):
+        cov['additional_passes_under_other_hash_seeds'] = os.environ['MLPE_EXTRA_PASSES']
     doc = {
         'property_id': prop_id, 'tier': tier_, 'seed': seed(), 'level': level,
         'coverage': cov, 'wall_s': round(wall_s, 2), 'violations': violations,
@@ -187,6 +194,8 @@ def write_evidence(prop_id, tier_, level, coverage, wall_s, violations=0, assump
 
 def save_replay(prop_id, obj) -> Path:
     REPLAYS.mkdir(exist_ok=True)
+    if isinstance(obj, dict):
+        obj = dict(obj, hashseed=os.environ.get('PYTHONHASHSEED'))
     blob = json.dumps(obj, indent=1, ensure_ascii=False, default=str, sort_keys=True)
     h = hashlib.sha1(blob.encode()).hexdigest()[:10]
     p = REPLAYS / f'{prop_id}-{h}.json'
